@@ -148,6 +148,99 @@ CLAIMED = {
                 "failing name is a violation.",
         "note": "Trusted as for C02/C03. One neutral shape per name; other shapes by the frame argument (paper).",
     },
+    "C01": {
+        "engines": ["A", "B", "C", "F"], "level": "proof",
+        "technique": "contract-based deductive verification of named necessary conditions: identifier triples (automata), "
+                     "docstring macro contract, roots-forwarding contracts (ast->z3), exhaustive import closure over the "
+                     "schematic family",
+        "text": "Validity is decided as a conjunction: every derived name is an identifier (C09 triples, all strings); "
+                "the docstring macro emits one well-formed token for any content; every dispatch path and every inner "
+                "build forwards roots so that dependants of failed schemas are removable (361 shapes + list/union "
+                "builders); every module of every schematic package (all kinds x flags x positions, 4 metadata "
+                "flavours, both enum styles) compiles and imports and pyproject.toml parses. Removal cascade and "
+                "parameter conflicts: bounded stand-ins.",
+        "note": "'imports successfully' for all documents is not a post-condition of a function; the import closure is "
+                "exhaustive over the schematic family only. O6 (file-name collisions) is a known gap.",
+    },
+    "C07": {
+        "engines": ["B"], "level": "proof",
+        "technique": "contract-based deductive verification: per-operation accounting contract of "
+                     "EndpointCollection.from_data and _get_errors (ast->z3 with capturing summaries); bounded stand-ins "
+                     "for media types, enum members, model properties, parameters, class-name collisions",
+        "text": "EndpointCollection.from_data is proved, for two generic operations with every outcome of every step and "
+                "every tag shape, to put each operation either as an endpoint or as a ParseError naming METHOD and path "
+                "into every selected collection (539 paths); _get_errors returns all three sources. The remaining "
+                "accounting obligations are bounded stand-ins (labelled).",
+        "note": "Loops over paths/methods are covered by the two-operation inductive case with an append-only frame "
+                "(paper step). Bounded stand-ins are not counted as proved. Known gap: file-name collisions.",
+    },
+    "C08": {
+        "engines": ["B"], "level": "proof",
+        "technique": "contract-based deductive verification: failure-frame and dependency-recording contracts of "
+                     "_property_from_ref / add_dependencies, roots-forwarding contracts of property_from_data and the "
+                     "list/union builders (ast->z3); removal cascade by bounded stand-in",
+        "text": "On every error return the Schemas argument is returned untouched; on success the dependency is recorded "
+                "in a table-owned set; every builder that can contain references receives the caller's roots on every "
+                "dispatch path. The cascade over recorded dependencies (3 models + 1 broken schema, all reference kinds "
+                "incl. cycles) is a bounded stand-in. One defect (union members not recorded) repaired.",
+        "note": "'identical contents with and without the bad piece' (two-run relation) is not decided.",
+    },
+    "C11": {
+        "engines": ["B"], "level": "proof",
+        "technique": "contract-based deductive verification of the type-string builders (ast->z3); mypy on schematic "
+                     "packages as labelled bounded stand-in",
+        "text": "get_type_string / to_string of the ten scalar kinds are proved to produce `Union[Unset, T]` exactly for "
+                "optional properties and the right declaration default; the union builder is proved to ask every member "
+                "for the same json/multipart form. 'Passes mypy' is only checked on schematic packages (bounded).",
+        "note": "mypy acceptance is an external judgement, never counted as proved; list/model/enum type strings are not "
+                "under contract yet. One defect (cookies dict) repaired.",
+    },
+    "C12": {
+        "engines": ["C", "B"], "level": "proof",
+        "technique": "contract-based verification of order-insensitivity at every set-iteration site (jinja + python AST "
+                     "obligations); hash-seed and schema-order comparisons as labelled bounded stand-ins",
+        "text": "(a) every template loop / filter chain over a set-typed attribute and every python join/list over a "
+                "set-typed value is shown to sort first (one defect repaired); bounded: identical bytes under several "
+                "PYTHONHASHSEED values. (b) permutation of components.schemas is NOT decided as stated; bounded "
+                "stand-in: all 24 orders of two 4-schema families.",
+        "note": "Set-typedness is inferred from annotations; C12(b) is outside per-function contracts (confluence of a "
+                "whole-run fixpoint).",
+    },
+    "C16": {
+        "engines": ["B", "C"], "level": "proof",
+        "technique": "contract-based deductive verification: reads frame per Config field over python and jinja ASTs, "
+                     "local effect contracts (get_content_type, Class.from_string, enum style, generate_all_tags) by "
+                     "ast->z3",
+        "text": "Every read site of every option lies in its documented unit (frame); content_type_overrides is proved "
+                "to be consulted on the document's own string before classification; class_overrides is applied iff the "
+                "derived name is a key; literal_enums selects the enum builder on all 361 dispatch shapes; "
+                "generate_all_tags places the same Endpoint under each tag.",
+        "note": "Two-run output relations are decided only through the reads frame. The documented frame table is part "
+                "of the contract (written from the README).",
+    },
+    "C17": {
+        "engines": ["B"], "level": "proof",
+        "technique": "contract-based deductive verification of the normalisation lemmas (handle_nullable, single-"
+                     "reference passthrough, loader selection of _get_document) by ast->z3; document pairs as bounded "
+                     "stand-in",
+        "text": "handle_nullable is proved over all schema shapes to add a null alternative in the 3.1 spelling and to "
+                "keep everything else; single-member wrappers are proved to resolve as the reference with the wrapper "
+                "as parent; a URL source is proved to select its loader by the bare media type. Byte identity of trees: "
+                "9 document pairs (bounded).",
+        "note": "JSON == YAML (external parsers) and 'enum with null == explicit union' are not decided.",
+    },
+    "C19": {
+        "engines": ["A", "B"], "level": "proof",
+        "technique": "contract-based deductive verification: path-component triples on the naming functions (automata, "
+                     "all strings) and an effect contract of Project.build executed symbolically (ast->z3) with the file "
+                     "system as an effect trace",
+        "text": "kebab_case / PythonIdentifier / ClassName results are proved to be safe path components for all strings; "
+                "Project.build and its helpers are proved, for every metadata flavour, to touch nothing when the "
+                "directory exists without overwrite, to write only allowed forms under the project/package directory, and "
+                "to clear models/ and api/ before creating anything in them.",
+        "note": "Path/shutil operations are modelled as an effect trace; overrides, output_path and post-hooks are trusted "
+                "configuration; loops over models/tags run for 0-2 symbolic elements.",
+    },
 }
 
 _NOT_BUILT = "not built yet in this round (planned per DESIGN.md section 7); no claim is made"
